@@ -407,3 +407,30 @@ CHECKS["C04"] = dict(
                   inst("root", "VHOptionRendering", {"OPTS": 3}, workers=16, must_reach=["options", "bad-condition"])]),
     assumptions=["literal characters: printable ASCII except [ ] \\\\ : and space at the edges (markup-free, no trimming)", "integral numbers in [-255, 255]"],
 )
+
+# ---------------------------------------------------------------- listener side (C01, C02; also the listener parts of C04 and C17)
+def _ls(h, workers=8, **params):
+    mr = params.pop("must_reach", [])
+    return inst("internal/tree", h, params, workers=workers, must_reach=mr, solver="z3")
+
+_LISTENER_NOTE = (" Listener side: the real parserListener is driven by the events of ANTLR's real ParseTreeWalker over a synthesised parse tree (real "
+                  "generated context classes, terminal nodes and tokens) and the syntax tree built is compared with the one the parse tree denotes; all "
+                  "callback stacks return to their entry depth.")
+CHECKS["C02"]["instances"]["quick"] += [_ls("VHExpressionListener", DEPTH=1, must_reach=["expression", "binary"])]
+CHECKS["C02"]["instances"]["thorough"] += [_ls("VHExpressionListener", DEPTH=1, must_reach=["expression", "binary"]),
+                                           _ls("VHExpressionListener", DEPTH=2, SKEW=1, workers=16, wall_s=7000, must_reach=["expression", "binary"]),
+                                           _ls("VHExpressionListener", DEPTH=2, SKEW=2, workers=16, wall_s=7000, must_reach=["expression", "binary"])]
+CHECKS["C02"]["claim"] += _LISTENER_NOTE + (" Expressions: every parse-tree shape of depth <= 1 (quick) / depth 2 with one deep operand (thorough) over number, boolean, "
+                                            "string, variable, call with 0..2 arguments, -e, not e, (e) and e op e for each of the fourteen operator tokens: operator "
+                                            "mapping, operand order and nesting.")
+CHECKS["C01"]["instances"]["quick"] += [_ls("VHStatementListener", DEPTH=1, NODELEN=1, must_reach=["dialogue"]),
+                                        _ls("VHStatementListener", DEPTH=0, NODELEN=2, must_reach=["dialogue"]),
+                                        _ls("VHStatementListener", DEPTH=0, NODELEN=1, NODES=2, must_reach=["dialogue"])]
+CHECKS["C01"]["instances"]["thorough"] += [_ls("VHStatementListener", DEPTH=1, NODELEN=1, must_reach=["dialogue"]),
+                                           _ls("VHStatementListener", DEPTH=0, NODELEN=2, must_reach=["dialogue"]),
+                                        _ls("VHStatementListener", DEPTH=0, NODELEN=1, NODES=2, must_reach=["dialogue"]),
+                                           _ls("VHStatementListener", DEPTH=2, NODELEN=1, OPTS=1, ELSEIF=0, workers=16, must_reach=["dialogue"]),
+                                           _ls("VHStatementListener", DEPTH=1, NODELEN=1, OPTS=2, BODY=2, workers=16, must_reach=["dialogue"])]
+CHECKS["C01"]["claim"] += _LISTENER_NOTE + (" Statements: dialogues of 1..2 nodes whose bodies hold lines (text runs split over several TEXT tokens, inline expressions, "
+                                            "conditions, hashtags), set with every assignment token, declare, jump by name/expression, commands (text and expressions, "
+                                            "rearranged), calls, and option groups / if-elseif-else chains nested to the listed depth.")
